@@ -41,7 +41,9 @@ func runC11(c *Ctx) {
 			if g == 1 {
 				iv[3], iv[15] = 0xff, 0xff
 			}
-			ivCan = mon.NewCanary(iv, 8)
+			// the IV slice handed to SetIV has plenty of spare capacity in every other group (an append onto the stored IV
+			// would then land in the caller's memory instead of reallocating)
+			ivCan = mon.NewCanary(iv, []int{8, 2100}[g%2])
 			if err := sm4.SetIV(ivCan.Slice()); err != nil {
 				rep.Violation("C11/SetIV/rejects-16-byte-iv", err.Error(), nil)
 			}
@@ -141,9 +143,10 @@ func runC11(c *Ctx) {
 	// answer for the current contents, and calls must not influence one another
 	{
 		rh := c.Rng("reuse")
-		iv := rh.Bytes(16)
+		ivCopy := rh.Bytes(16)
+		hIV := mon.NewCanary(ivCopy, 4096)
+		iv := hIV.Slice()
 		sm4.SetIV(iv)
-		ivCopy := append([]byte{}, iv...)
 		for h := 0; h < c.Q(80, 4000); h++ {
 			key, pt := rh.Bytes(16), rh.Bytes(rh.Pick(0, 1, 15, 16, 17, 31, 32, 48, 100))
 			var trace []string
@@ -182,8 +185,8 @@ func runC11(c *Ctx) {
 					rep.Violation("C11/history/"+m.name+"/decrypt-does-not-follow-current-buffer-contents", fmt.Sprintf("after %v err=%v", trace, e2), w)
 					break
 				}
-				if !bytes.Equal(iv, ivCopy) {
-					rep.Violation("C11/history/iv-buffer-written", fmt.Sprintf("after %v", trace), w)
+				if sc := hIV.Check(); sc != "" {
+					rep.Violation("C11/history/iv-memory-written", fmt.Sprintf("%s after %v", sc, trace), w)
 					break
 				}
 			}
